@@ -35,6 +35,37 @@ CTXG = {
 def ctx_of(name):
     return gen.CONTEXTS[name]
 
+_SYNCED = False
+
+def _kind_of(spec):
+    k, d = spec
+    if k == 'o1': k = 'o'
+    return k + d if k[0] in 'mo' and k != 'o0' else k
+
+def sync_default():
+    """take the signatures of the curated default-context names from the real database"""
+    global _SYNCED
+    if _SYNCED:
+        return
+    import ctxdesc
+    j = ctxdesc.introspect_db(ctxdesc.make_db('default'))
+    cg = CTXG['default']
+    macros = dict((n, a) for n, a in j['macros'])
+    envs = dict((n, (a, bm)) for n, a, bm in j['envs'])
+    for n in list(cg['macros']):
+        a = macros.get(n, j['um'])
+        if a is None or a[0] != 'S':
+            del cg['macros'][n]
+        else:
+            cg['macros'][n] = [_kind_of(sp) for sp in a[1]]
+    for n in list(cg['envs']):
+        a, bm = envs.get(n, (j['ue'][0], j['ue'][1]) if j['ue'] else (None, False))
+        if a is None or a[0] != 'S':
+            del cg['envs'][n]
+        else:
+            cg['envs'][n] = ([_kind_of(sp) for sp in a[1]], bm)
+    _SYNCED = True
+
 # ---------------------------------------------------------------- generation
 
 def gen_text(rng):
@@ -75,6 +106,37 @@ def gen_argval(rng, cg, kind, budget, in_math, depth):
         return ('verb', o, c, ''.join(rng.choice('ab \\%$&') for _ in range(rng.randint(0, 4))))
     raise ValueError(kind)
 
+def opener_of(kind):
+    k = kind[0]
+    if k == 'o': return '['
+    if k == 's': return '*'
+    if k == 't': return kind[1]
+    if k == 'd': return kind[1]
+    return None
+
+def present_empty(kind):
+    k = kind[0]
+    if k == 'o': return ('br', [])
+    if k == 's': return ('star',)
+    if k == 't': return ('marker', kind[1])
+    if k == 'd': return ('del', kind[1], kind[2], [])
+    raise ValueError(kind)
+
+def fix_args(sig, args):
+    """an absent optional slot must not be followed by a written argument that starts with its opener"""
+    args = list(args)
+    for i in range(len(args) - 1, -1, -1):
+        if args[i][0] != 'absent':
+            continue
+        op = opener_of(sig[i])
+        nxt = ''.join(unparse_arg(a) for a in args[i + 1:])
+        if op and nxt[:1] == op:
+            args[i] = present_empty(sig[i])
+    return args
+
+def gen_args(rng, cg, sig, budget, in_math, depth):
+    return fix_args(sig, [gen_argval(rng, cg, k, budget, in_math, depth) for k in sig])
+
 def gen_item(rng, cg, budget, in_math, depth, nested):
     r = rng.random()
     if budget <= 0 or r < 0.28:
@@ -88,12 +150,12 @@ def gen_item(rng, cg, budget, in_math, depth, nested):
     if r < 0.70:
         name = rng.choice(sorted(cg['macros']))
         sig = cg['macros'][name]
-        args = [gen_argval(rng, cg, k, budget - 1, in_math, depth) for k in sig]
+        args = gen_args(rng, cg, sig, budget - 1, in_math, depth)
         return ('M', name, '', args)
     if r < 0.78 and depth < 4:
         name = rng.choice(sorted(cg['envs']))
         sig, bm = cg['envs'][name]
-        args = [gen_argval(rng, cg, k, budget - 1, in_math, depth) for k in sig]
+        args = gen_args(rng, cg, sig, budget - 1, in_math, depth)
         return ('E', name, args, gen_items(rng, cg, budget - 1, in_math or bm, depth + 1, True))
     if r < 0.86 and not in_math:
         kind = rng.choice(['$', '$', '$$', '\\(', '\\['])
@@ -104,16 +166,18 @@ def gen_item(rng, cg, budget, in_math, depth, nested):
     if r < 0.96:
         name = rng.choice(sorted(cg['specials']))
         sig = cg['specials'][name]
-        args = [gen_argval(rng, cg, k, budget - 1, in_math, depth) for k in sig]
+        args = gen_args(rng, cg, sig, budget - 1, in_math, depth)
         return ('S', name, args)
-    if r < 0.98 and not in_math:
+    if r < 0.98 and not in_math and cg['verbenvs']:
         vn = rng.choice(sorted(cg['verbenvs']))
         opt = None
         if cg['verbenvs'][vn] and rng.random() < 0.5:
             opt = [('T', 'opt')]
         return ('VE', vn, opt, rng.choice(['', '\n']) + ''.join(rng.choice('ab {}$\\%\n') for _ in range(rng.randint(0, 5))))
-    d = rng.choice('|!+/')
-    return ('V', d, ''.join(rng.choice('ab {}$\\%') for _ in range(rng.randint(0, 4))))
+    if cg.get('verbmacro') and (cg is CTXG['default'] or cg is CTXG['A']):
+        d = rng.choice('|!+/')
+        return ('V', d, ''.join(rng.choice('ab {}$\\%') for _ in range(rng.randint(0, 4))))
+    return ('T', gen_text(rng))
 
 def first_char(items):
     s = unparse(items)
@@ -164,12 +228,18 @@ def fixup(rng, cg, items, in_math, nested):
             out[-1] = ('T', prev[1] + it[1]); continue
         if it[0] == 'W' and prev and prev[0] in ('W', 'P'):
             continue
+        if it[0] == 'W' and prev and prev[0] == 'C':
+            if not it[1].replace('\n', ''):
+                continue
+            it = ('W', it[1].replace('\n', ''))
         if it[0] == 'P' and prev and prev[0] == 'W':
             out[-1] = it; continue
         if it[0] == 'P' and prev and prev[0] in ('P',):
             continue
         if it[0] == 'F' and in_math:
             continue
+        if it[0] == 'S' and prev is not None and prev[0] == 'S' and not (prev[2] and any(a[0] != 'absent' for a in prev[2])):
+            out.append(('T', 'q'))
         if it[0] == 'F' and it[1] == '$' and not unparse(it[2]).strip():
             it = ('F', '$', [('T', 'x')])
         if it[0] == 'F' and it[2] and it[2][0][0] == 'F':
@@ -196,7 +266,7 @@ def fixup(rng, cg, items, in_math, nested):
                 else:
                     # followed directly by the next item: a letter would extend the name; whitespace belongs to the macro
                     if nxt is None or nxt[0] == 'W':
-                        post = nxt[1] if nxt is not None and '\n' not in nxt[1][1:] and nxt[1].count('\n') < 2 else ''
+                        post = nxt[1] if nxt is not None else ''
                         if nxt is not None:
                             out[i + 1] = ('W0', '')
                     elif nxt[0] == 'T' or (first_char([nxt]).isalpha()):
@@ -220,6 +290,8 @@ def fixup(rng, cg, items, in_math, nested):
     return fin
 
 def gen_doc(rng, ctxname, budget=6):
+    if ctxname == 'default':
+        sync_default()
     cg = CTXG[ctxname]
     return gen_items(rng, cg, budget, False, 0, False)
 
@@ -291,12 +363,20 @@ def tree_arg(a, cg):
 
 def tree_of(items, cg):
     out = []
+    prev = None
     for it in items:
         k = it[0]
+        if k == 'W' and prev is not None and prev[0] == 'C':
+            prev = it
+            continue        # whitespace after a comment's newline is the comment's post-space
+        pprev = prev
+        prev = it
         if k in ('T', 'W'):
             out.append(('c', it[1]))
         elif k == 'P':
-            out.append(('s', '\n\n') if cg['par_specials'] else ('c', it[1]))
+            # without a paragraph specials the break is plain text; it then also holds the newline that ended a preceding comment
+            pre = pprev[2] if (pprev is not None and pprev[0] == 'C') else ''
+            out.append(('s', '\n\n') if cg['par_specials'] else ('c', pre + it[1]))
         elif k == 'G':
             out.append(('g', '{', '}', tree_of(it[1], cg)))
         elif k == 'M':
@@ -384,8 +464,11 @@ def boundaries(items, base=0, acc=None):
         elif k == 'M':
             p = pos + 1 + len(it[1]) + len(it[2])
             for a in it[3]:
-                acc.append(p)
+                if a[0] != 'verb':
+                    acc.append(p)
                 p = arg_boundaries(a, p, acc)
+            if it[3] and it[3][-1][0] == 'verb':
+                pass
         elif k == 'S':
             p = pos + len(it[1])
             for a in it[2]:
@@ -414,3 +497,59 @@ def fault_sites(items, rng, ctxname, maxn=12):
             sites.append((b, f))
     rng.shuffle(sites)
     return sites[:maxn]
+
+# ---------------------------------------------------------------- random contexts (every signature over the standard argument types)
+
+SLOT_KINDS = ['m', 'm', 'm+', 'm-', 'o', 'o', 's', 't+', 't!', 'r()', 'r<>', 'd<>', 'd()', 'v', 'o0']
+
+def json_spec(kind):
+    d = ''
+    k = kind
+    if kind[-1] in '+-' and kind[0] in 'mo' and len(kind) == 2:
+        d = kind[-1]; k = kind[0]
+    if k == 'o': k = 'o1'
+    return [k, d]
+
+def gen_random_ctx(rng):
+    """returns (json ctx, generator view)"""
+    macros, envs, specials = [], [], []
+    cg = {'macros': {}, 'envs': {}, 'verbenvs': {}, 'verbmacro': 'verb', 'specials': {}, 'par_specials': rng.random() < 0.7}
+    for i in range(rng.randint(2, 6)):
+        name = rng.choice(['p', 'q', 'pq', 'w', 'ww', 'k', 'kk', '!', ';', '\\'])
+        if name in cg['macros']:
+            continue
+        sig = [rng.choice(SLOT_KINDS) for _ in range(rng.randint(0, 4))]
+        # a no-pre-space bracket only makes sense directly after a star (as in `\\`)
+        sig = [('o' if k == 'o0' and name != '\\' else k) for k in sig]
+        cg['macros'][name] = sig
+        macros.append([name, ['S', [json_spec(k) for k in sig]]])
+    for i in range(rng.randint(1, 3)):
+        name = rng.choice(['e', 'f', 'ee', 'g*'])
+        if name in cg['envs']:
+            continue
+        sig = [rng.choice(SLOT_KINDS[:13]) for _ in range(rng.randint(0, 2))]
+        bm = rng.random() < 0.4
+        cg['envs'][name] = (sig, bm)
+        envs.append([name, ['S', [json_spec(k) for k in sig]], bm])
+    for ch in rng.sample(['~', '&', '``', '--', '#'], rng.randint(0, 3)):
+        sig = [rng.choice(['o', 'm'])] if rng.random() < 0.2 else []
+        cg['specials'][ch] = sig
+        specials.append([ch, ['S', [json_spec(k) for k in sig]]])
+    if cg['par_specials']:
+        specials.append(['\n\n', ['S', []]])
+    um = None
+    ue = None
+    if rng.random() < 0.6:
+        um = ['S', []]
+        cg['macros']['zz'] = []
+    if rng.random() < 0.6:
+        ue = [['S', []], False]
+        cg['envs']['uu'] = ([], False)
+    if not cg['specials']:
+        cg['specials']['~'] = []
+        specials.append(['~', ['S', []]])
+    ctx = {'macros': macros, 'envs': envs, 'specials': specials, 'um': um, 'ue': ue}
+    return ctx, cg
+
+def gen_doc_cg(rng, cg, budget=6):
+    return gen_items(rng, cg, budget, False, 0, False)
